@@ -461,6 +461,42 @@ func runDKG(t *testing.T, rc *RunCtx) {
 			rc.Violate("C12", "tampered-commit-reply-accepted", fmt.Sprintf("generation reported success although a commit reply was tampered (%s)", tamper), s.Step)
 		}
 		rc.Stats.Inc("fault_commit_reply_"+tamper, 1)
+		// Half of these runs: the client asks again for the same name, through an instance that holds nothing under it
+		// (participants that committed before the generation was given up still hold their account of the first attempt).
+		// The second attempt may be refused; if it reports success, it is held to everything a success promises.
+		if out.State != pb.ResponseState_SUCCEEDED && ch.Pick(2, 0) == 1 {
+			var clean []*Node
+			leftovers := 0
+			for _, nd := range c.Nodes {
+				if st, ca := nd.hasAccount(path); !st && !ca {
+					clean = append(clean, nd)
+				} else {
+					leftovers++
+				}
+			}
+			if len(clean) > 0 {
+				for k := range c.Net.Plan {
+					delete(c.Net.Plan, k)
+				}
+				via := clean[ch.Pick(len(clean), 0)]
+				out2 := c.spawnGenerate(via, "client1", path, uint32(th), uint32(n))
+				if o := s.Run(); o == "done" && out2.Done {
+					rc.Stats.Inc("retries_after_failed_generation", 1)
+					if leftovers > 0 {
+						rc.Stats.Inc("probe_retry_with_leftover_accounts_of_failed_attempt", 1)
+					}
+					rc.Logf("retry through %s (%d leftovers) -> %v %q", via.Name, leftovers, out2.State, out2.Message)
+					if p := c.anyPanic(); p != "" {
+						rc.Violate("C12", "panic", p, s.Step)
+						return
+					}
+					if out2.State == pb.ResponseState_SUCCEEDED {
+						rc.Stats.Inc("retries_after_failed_generation_succeeded", 1)
+						s.Direct(func() { c.checkGenerated("C12", path, uint32(th), parts, out2, s.Step) })
+					}
+				}
+			}
+		}
 	case n == 1:
 		if out.State != pb.ResponseState_SUCCEEDED {
 			rc.Stats.Inc("single_participant_failed", 1)
